@@ -161,6 +161,8 @@ def compare(case, obs, replies):
             # complex): the exact model tracks these only approximately — the ORACLE reports them (known findings),
             # the correspondence does not insist on predicting them
             continue
+        if m[0] == 'err' and m[1].startswith('Other:') and o[0] != 'err':
+            continue   # the model's approximate magnitude tracking predicts a Python exception: inconclusive
         if m[0] == 'err':
             if o[0] != 'err' or o[1] != m[1].replace('Other:', ''):
                 return 'expr %s: model %s, implementation %s' % (json.dumps(r['tree'])[:400], m, o)
